@@ -277,6 +277,20 @@ def args_from_inputs(c, inputs):
 
 def replay_inputs(reg, c, inputs):
     """replay a solver counter-model.  -> (status, info); status in reproduced | not-reproduced | req-not-met | error"""
+    def has_opaque(S):
+        if S is api.Obj or isinstance(S, api.Fn):
+            return True
+        if isinstance(S, (api.Opt,)):
+            return has_opaque(S.inner)
+        if isinstance(S, api.Struct):
+            return any(has_opaque(x) for x in S.fields.values())
+        if isinstance(S, (api.Seq, api.Set)):
+            return has_opaque(S.elem)
+        if isinstance(S, api.Dict):
+            return has_opaque(S.key) or has_opaque(S.val)
+        return False
+    if c.effects or c.opaque_fns or c.opaque or c.opaque_attrs or any(has_opaque(S) for S in c.params.values()) or any('__trace__' in t for t in c.ensures):
+        return 'not-replayable', {'detail': 'the contract abstracts effects / opaque objects: a model of it is not a concrete input of the real function'}
     try:
         args = args_from_inputs(c, inputs)
     except Exception as ex:
